@@ -126,7 +126,18 @@ func run(def rules.PropDef, prop, tier string, seed int64, repo, verif, only str
 		for _, l := range lines {
 			fmt.Fprintln(os.Stderr, l)
 		}
-		rep.Notes = append(rep.Notes, fmt.Sprintf("kill matrix: %d/%d registered changes reported (%d expected-but-missed); each applied to a scratch copy, type-checked and analysed, never executed", killed, total, regress))
+		nRef, nSilent := 0, 0
+		for _, m := range ms {
+			if m.Expected == "silent" {
+				nRef++
+				if m.Result == "survived" {
+					nSilent++
+				}
+			}
+		}
+		rep.Extra["refactorings_total"] = nRef
+		rep.Extra["refactorings_silent"] = nSilent
+		rep.Notes = append(rep.Notes, fmt.Sprintf("kill matrix: %d/%d registered breaking changes reported; silent on %d/%d behaviour-preserving refactorings (%d deviations from the recorded expectations); each applied to a scratch copy, type-checked and analysed, never executed", killed, total, nSilent, nRef, regress))
 	}
 	// positive / negative controls
 	if !noFixtures {
